@@ -1,6 +1,7 @@
 package rules
 
 import (
+	"os"
 	"fmt"
 	"go/token"
 	"go/types"
@@ -210,36 +211,39 @@ func checkC16(P *core.Program, R *core.Report) {
 				if !ok || len(ret.Results) != 2 {
 					continue
 				}
-				// found == true returns (named results may be stored in slots: use forwarded const)
-				fv := ff.Fwd(ret.Results[1])
-				k, isK := fv.(*ssa.Const)
-				if !isK || k.Value == nil || k.Value.String() != "true" {
-					continue
-				}
-				nFound++
-				for _, v := range vars {
-					p, isP := v.(*ssa.Parameter)
-					if !isP {
-						bad = "prefix argument is not a parameter"
-						continue
+				// every way `found` can be true at this return (a constant, or a merge of
+				// per-path values): the facts of that way must contain the filter
+				for _, vc := range ff.CasesOf(ret.Results[1], ret, 4) {
+					k, isK := vc.Val.(*ssa.Const)
+					if isK && (k.Value == nil || k.Value.String() != "true") {
+						continue // found == false
 					}
-					want := strings.ToUpper(p.Name()[:1]) + p.Name()[1:]
-					ok := false
-					for _, a := range ff.At(ex.Instr) {
-						if a.Rel != core.EQ || a.B == nil {
+					facts := append(append([]*core.Atom{}, vc.Facts...), ff.At(ex.Instr)...)
+					nFound++
+					for _, v := range vars {
+						p, isP := v.(*ssa.Parameter)
+						if !isP {
+							bad = "prefix argument is not a parameter"
 							continue
 						}
-						for _, pr := range [][2]ssa.Value{{a.A, a.B}, {a.B, a.A}} {
-							if ff.Fwd(pr[1]) != v {
+						want := strings.ToUpper(p.Name()[:1]) + p.Name()[1:]
+						ok := false
+						for _, a := range facts {
+							if a.Rel != core.EQ || a.B == nil {
 								continue
 							}
-							if _, isField := fieldLoad(ff, pr[0], want); isField {
-								ok = true
+							for _, pr := range [][2]ssa.Value{{a.A, a.B}, {a.B, a.A}} {
+								if ff.Fwd(pr[1]) != v {
+									continue
+								}
+								if _, isField := fieldLoad(ff, pr[0], want); isField {
+									ok = true
+								}
 							}
 						}
-					}
-					if !ok {
-						bad = fmt.Sprintf("found-return at %s is not filtered by record.%s == %s", P.Pos(P.InstrPos(ex.Instr)), want, p.Name())
+						if !ok {
+							bad = fmt.Sprintf("found-return at %s is not filtered by record.%s == %s", P.Pos(P.InstrPos(ex.Instr)), want, p.Name())
+						}
 					}
 				}
 			}
@@ -353,39 +357,34 @@ func checkSourcePreference(P *core.Program, R *core.Report) {
 		}
 	}
 	want := []string{oracleConst(P, "ELYS"), oracleConst(P, "BAND"), "any"}
-	ok := len(labels) == 3
-	for i := range want {
-		if i >= len(labels) || labels[i] != want[i] {
-			ok = false
+	ok := false
+	if len(labels) == 2 && labels[1] == "any" {
+		// one lookup inside `for _, source := range <package-level list of constants>`
+		labels, ok = loopPreference(P, ff, seq[0], seq[1], want)
+	} else {
+		ok = len(labels) == 3
+		for i := range want {
+			if i >= len(labels) || labels[i] != want[i] {
+				ok = false
+			}
+		}
+		// each later lookup only under ¬found of all earlier ones, and earlier dominates later
+		for i := 1; i < len(seq) && ok; i++ {
+			for j := 0; j < i; j++ {
+				if !core.Dominates(seq[j], seq[i]) {
+					ok = false
+				}
+				if !notFoundFact(ff, ff.At(seq[i]), seq[j]) {
+					ok = false
+				}
+			}
 		}
 	}
 	// asset argument is the function's asset parameter everywhere
 	for _, c := range seq {
 		a := c.Common().Args
-		idx := 2
-		if ff.Fwd(a[idx]) != ssa.Value(fn.Params[2]) {
+		if ff.Fwd(a[2]) != ssa.Value(fn.Params[2]) {
 			ok = false
-		}
-	}
-	// each later lookup only under ¬found of all earlier ones, and earlier dominates later
-	for i := 1; i < len(seq) && ok; i++ {
-		for j := 0; j < i; j++ {
-			if !core.Dominates(seq[j], seq[i]) {
-				ok = false
-			}
-			notFound := false
-			for _, a := range ff.At(seq[i]) {
-				if a.Rel == core.FALSE {
-					for _, o := range ff.Origins(a.A) {
-						if o.Val == ssa.Value(seq[j].(*ssa.Call)) && o.Path == "#1" {
-							notFound = true
-						}
-					}
-				}
-			}
-			if !notFound {
-				ok = false
-			}
 		}
 	}
 	R.Add("C16-preference", key, "ELYS → BAND → any", P.Pos(fn.Pos()), ok, "lookups "+strings.Join(labels, " → ")+"; a later source is consulted only when the earlier one has no live price")
@@ -462,15 +461,6 @@ func checkExpiry(P *core.Program, R *core.Report) {
 			iter = true
 		}
 	}
-	sumOf := func(v ssa.Value, f1, f2 string) bool {
-		bo, ok := ff.Fwd(v).(*ssa.BinOp)
-		if !ok || bo.Op != token.ADD {
-			return false
-		}
-		_, a := fieldLoad(ff, bo.X, f1)
-		_, b := fieldLoad(ff, bo.Y, f2)
-		return a && b
-	}
 	nowIs := func(v ssa.Value, method string) bool {
 		for _, o := range ff.OriginsT(v, func(c *ssa.Call) []ssa.Value {
 			if core.CalleeName(c.Common()) == "Unix" {
@@ -484,26 +474,118 @@ func checkExpiry(P *core.Program, R *core.Report) {
 		}
 		return false
 	}
-	byTime, byHeight := false, false
-	for _, c := range core.Calls(fn) {
-		if !calleeMatches(P, c, "x/oracle/keeper.Keeper.RemovePrice") {
-			continue
+	role := func(_ string, v ssa.Value) (string, bool) {
+		if v == nil {
+			return "", false
 		}
-		for _, a := range ff.At(c) {
-			if a.Rel != core.LT || a.B == nil {
+		for _, f := range [][2]string{{"Timestamp", "TS"}, {"PriceExpiryTime", "EXP"}, {"BlockHeight", "BH"}, {"LifeTimeInBlocks", "LIFE"}} {
+			if _, is := fieldLoad(ff, v, f[0]); is {
+				return f[1], true
+			}
+		}
+		switch {
+		case nowIs(v, "BlockTime"):
+			return "NOW", true
+		case nowIs(v, "BlockHeight"):
+			return "HEIGHT", true
+		}
+		return "", false
+	}
+	// Expired ⇒ removed, decided on paths: every way through one sweep iteration that does NOT
+	// call RemovePrice must carry both ¬(Timestamp + PriceExpiryTime < now) and
+	// ¬(BlockHeight + LifeTimeInBlocks < height) — however the two tests are combined.
+	isRemove := func(in ssa.Instruction) bool {
+		c, ok := in.(ssa.CallInstruction)
+		return ok && calleeMatches(P, c, "x/oracle/keeper.Keeper.RemovePrice")
+	}
+	var removeBlocks []*ssa.BasicBlock
+	for _, c := range core.Calls(fn) {
+		if isRemove(c) {
+			removeBlocks = append(removeBlocks, c.Block())
+		}
+	}
+	byTime, byHeight := len(removeBlocks) > 0, len(removeBlocks) > 0
+	detail := ""
+	nLatch := 0
+	wantT, wantH := core.ParsePoly("TS + EXP - NOW"), core.ParsePoly("BH + LIFE - HEIGHT")
+	for _, b := range fn.Blocks {
+		for _, sblk := range b.Succs {
+			if !sblk.Dominates(b) {
+				continue // not a back edge
+			}
+			inLoop := false
+			for _, rb := range removeBlocks {
+				if sblk.Dominates(rb) {
+					inLoop = true
+				}
+			}
+			if !inLoop || len(b.Instrs) == 0 {
 				continue
 			}
-			if sumOf(a.A, "Timestamp", "PriceExpiryTime") && nowIs(a.B, "BlockTime") {
-				byTime = true
+			nLatch++
+			paths, ok := ff.PathsTo(b.Instrs[len(b.Instrs)-1])
+			if !ok {
+				byTime, byHeight = false, false
+				detail = "too many paths"
+				continue
 			}
-			if sumOf(a.A, "BlockHeight", "LifeTimeInBlocks") && nowIs(a.B, "BlockHeight") {
-				byHeight = true
+			for _, p := range paths {
+				removed := false
+				for _, pb := range p.Blocks {
+					for _, in := range pb.Instrs {
+						if isRemove(in) {
+							removed = true
+						}
+					}
+				}
+				if removed {
+					continue
+				}
+				t, h := false, false
+				// the back edge itself may be one arm of the last test
+				atoms := append(append([]*core.Atom{}, p.Atoms...), ff.EdgeFacts(b, sblk)...)
+				for _, a := range atoms {
+					if (a.Rel != core.LE && a.Rel != core.LT) || a.A == nil || a.B == nil || a.A == core.ZeroMarker || a.B == core.ZeroMarker || a.B == core.NilMarker {
+						continue
+					}
+					if _, basic := a.A.Type().Underlying().(*types.Basic); !basic {
+						continue
+					}
+					d, okR := ff.PolyOf(a.B).Sub(ff.PolyOf(a.A)).Rename(role)
+					if !okR {
+						continue
+					}
+					if d.Equal(wantT) {
+						t = true
+					}
+					if d.Equal(wantH) {
+						h = true
+					}
+				}
+				if os.Getenv("ELYSLINT_POLY_DEBUG") != "" && (!t || !h) {
+					fmt.Fprintf(os.Stderr, "c16 path t=%v h=%v blocks=%d\n", t, h, len(p.Blocks))
+					for _, a := range p.Atoms {
+						fmt.Fprintf(os.Stderr, "     %s\n", ff.AtomString(a))
+					}
+				}
+				if !t {
+					byTime = false
+					detail = "a sweep iteration can finish without RemovePrice and without now ≤ Timestamp + PriceExpiryTime"
+				}
+				if !h {
+					byHeight = false
+					detail = "a sweep iteration can finish without RemovePrice and without height ≤ BlockHeight + LifeTimeInBlocks"
+				}
 			}
 		}
 	}
+	if nLatch == 0 {
+		byTime, byHeight = false, false
+		detail = "no sweep loop around RemovePrice found (anchor changed)"
+	}
 	R.Add("C16-expiry", key, "sweep over all prices", P.Pos(fn.Pos()), iter, "EndBlock visits every stored price")
-	R.Add("C16-expiry", key, "Timestamp + PriceExpiryTime < now ⇒ remove", P.Pos(fn.Pos()), byTime, "time-based expiry removes the price")
-	R.Add("C16-expiry", key, "BlockHeight + LifeTimeInBlocks < height ⇒ remove", P.Pos(fn.Pos()), byHeight, "block-lifetime expiry removes the price")
+	R.Add("C16-expiry", key, "Timestamp + PriceExpiryTime < now ⇒ remove", P.Pos(fn.Pos()), byTime, "time-based expiry removes the price. "+detail)
+	R.Add("C16-expiry", key, "BlockHeight + LifeTimeInBlocks < height ⇒ remove", P.Pos(fn.Pos()), byHeight, "block-lifetime expiry removes the price. "+detail)
 }
 
 func checkPriceWriters(P *core.Program, R *core.Report) {
@@ -603,4 +685,115 @@ func recordFieldConst(ff *core.FuncFacts, rec ssa.Value, name, want string) bool
 		}
 	}
 	return false
+}
+
+// notFoundFact: the atoms contain ¬found for the boolean result of the lookup call.
+func notFoundFact(ff *core.FuncFacts, atoms []*core.Atom, lookup ssa.CallInstruction) bool {
+	for _, a := range atoms {
+		if a.Rel == core.FALSE {
+			for _, o := range ff.Origins(a.A) {
+				if o.Val == lookup.Value() && o.Path == "#1" {
+					return true
+				}
+			}
+		}
+	}
+	return false
+}
+
+// loopPreference decides the looped form of the source preference: the per-source lookup
+// sits in a range loop over a package-level list of constants (consulted in list order),
+// the loop goes on to the next source only under ¬found, it is left early only by
+// returning, and the any-source lookup comes after the loop.
+func loopPreference(P *core.Program, ff *core.FuncFacts, lookup, anyCall ssa.CallInstruction, want []string) ([]string, bool) {
+	args := lookup.Common().Args
+	srcs, ok := constStringSymbols(ff, args[len(args)-1])
+	labels := append(append([]string{}, srcs...), "any")
+	if !ok || len(labels) != len(want) {
+		return labels, false
+	}
+	for i := range want {
+		if labels[i] != want[i] {
+			return labels, false
+		}
+	}
+	// the loop: header = a block that dominates the lookup and is the target of a back edge
+	// from a block the lookup reaches
+	var header *ssa.BasicBlock
+	for _, b := range ff.Fn.Blocks {
+		for _, sb := range b.Succs {
+			if sb.Dominates(b) && sb.Dominates(lookup.Block()) {
+				if header == nil || header.Dominates(sb) {
+					header = sb
+				}
+				// continuing with the next source requires ¬found
+				atoms := append(append([]*core.Atom{}, ff.OutFacts(b)...), ff.EdgeFacts(b, sb)...)
+				if !notFoundFact(ff, atoms, lookup) {
+					return labels, false
+				}
+			}
+		}
+	}
+	if header == nil || header.Dominates(anyCall.Block()) == false {
+		return labels, false
+	}
+	// the any-source lookup is outside the loop and reached from inside it only through the
+	// header's exhaustion exit: no block of the loop body other than the header reaches it
+	// without passing the header
+	inLoop := func(b *ssa.BasicBlock) bool {
+		if !header.Dominates(b) {
+			return false
+		}
+		_, back := core.ReachesWithout(ff.Fn, b.Instrs[0], func(in ssa.Instruction) bool { return in.Block() == header }, nil)
+		return back || b == header
+	}
+	if inLoop(anyCall.Block()) {
+		return labels, false
+	}
+	_, leak := core.ReachesWithout(ff.Fn, lookup, func(in ssa.Instruction) bool { return in == ssa.Instruction(anyCall) },
+		func(in ssa.Instruction) bool { return in.Block() == header })
+	if leak {
+		return labels, false
+	}
+	return labels, true
+}
+
+// constStringSymbols: like constStrings but names each element the way symbolOf does
+// (package-level variables by name), in list order.
+func constStringSymbols(ff *core.FuncFacts, v ssa.Value) ([]string, bool) {
+	u, ok := ff.Fwd(v).(*ssa.UnOp)
+	if !ok || u.Op != token.MUL {
+		return nil, false
+	}
+	ia, ok := u.X.(*ssa.IndexAddr)
+	if !ok {
+		return nil, false
+	}
+	// the index must be a range index (φ stepping by one from −1): every element in order
+	ph, ok := ff.Fwd(ia.Index).(*ssa.BinOp)
+	if !ok || ph.Op != token.ADD {
+		return nil, false
+	}
+	ld, ok := ff.Fwd(ia.X).(*ssa.UnOp)
+	if !ok || ld.Op != token.MUL {
+		return nil, false
+	}
+	g, ok := ld.X.(*ssa.Global)
+	if !ok {
+		return nil, false
+	}
+	iv := ff.GlobalInit(g)
+	if iv == nil || iv.Parent() == nil {
+		return nil, false
+	}
+	iff := ff.P.Facts(iv.Parent())
+	els, ok := core.SliceLiteral(iff.Fwd(iv))
+	if !ok {
+		return nil, false
+	}
+	var out []string
+	for _, e := range els {
+		out = append(out, symbolOf(iff, e))
+	}
+	return out, len(out) > 0
 }
